@@ -14,9 +14,30 @@ MODE = "true"
 GENF = generate_true
 
 
+class _Celsius(float):
+    pass
+
+
+class _Name(str):
+    pass
+
+
+def _subclass_kinds():
+    import collections
+    import enum
+    from predicate.standard_predicates import is_instance_p
+
+    class Level(enum.IntEnum):
+        OFF = 0
+        ON = 1
+    return [is_instance_p(collections.OrderedDict), is_instance_p(collections.Counter), is_instance_p(collections.defaultdict), is_instance_p(_Celsius),
+            is_instance_p(Level), is_instance_p(_Name), is_instance_p(frozenset), is_instance_p(bytes), is_instance_p(bool, str)]
+
+
 def extra_kinds():
-    """kinds outside the Coq model: judged by the search only"""
-    return [is_tuple_of_p(is_int_p, is_str_p), is_tuple_of_p(), is_dict_of_p((is_str_p, is_int_p)), is_dict_of_p(("a", is_int_p)),
+    """kinds outside the Coq model: judged by the search only (a kind the generators do not support may raise ValueError or give an
+    empty stream; whatever IS yielded must satisfy the predicate)"""
+    return _subclass_kinds() + [is_tuple_of_p(is_int_p, is_str_p), is_tuple_of_p(), is_dict_of_p((is_str_p, is_int_p)), is_dict_of_p(("a", is_int_p)),
             is_list_of_p(is_int_p), is_list_of_p(ge_p(3) | is_str_p), regex_p("^foo[0-9]+"), regex_p("a|b"),
             is_subset_p({1, 2, 3}), is_real_subset_p({1, 2}), is_subset_p(set())]
 
@@ -64,12 +85,12 @@ def search(payload):
     preds = g.grid_true(payload["tier"]) + extra_kinds() + g.search_extra("true")
     n_values = 60 if deep else 25
     fails, known_hits, n = [], [], 0
-    for seed in range(3 if deep else 1):
+    for seed in range(4 if deep else 3):
         for p in preds:
             random.seed(int(payload["seed"]) * 7919 + seed * 131 + len(repr(p)))
             try:
                 vals, err = g.take(GENF(p), n_values)
-            except ValueError:
+            except (ValueError, TypeError):
                 continue
             for i, v in enumerate(vals):
                 n += 1
